@@ -609,6 +609,16 @@ where
 			if let Err(v) = OwnerV3Helpers::check_encryption_started(key.clone()) {
 				return Ok(v);
 			}
+			// only the envelope method is opened: anything else that happens to carry
+			// the envelope's fields (another method name, an array) is malformed
+			if !OwnerV3Helpers::is_encrypted_request(&val) {
+				return Ok(EncryptionErrorResponse::new(
+					1,
+					-32002,
+					"Encrypted request format error: method must be 'encrypted_request_v3'",
+				)
+				.as_json_value());
+			}
 			let res = OwnerV3Helpers::decrypt_request(key.clone(), &val);
 			match res {
 				Err(e) => return Ok(e),
